@@ -218,6 +218,33 @@ func newRabWorld(n, t, k int, dealerObs bool) *rabWorld {
 		if j, err := d4.ProcessResponse(cloneRespR(r2)); err == nil && j != nil {
 			w.justs[fmt.Sprintf("just:%d:bad", i)] = j
 		}
+		// a justification for i's complaint that reveals ANOTHER verifier's (valid) share, and one that reveals a share
+		// of another, self-consistent polynomial (own commitments, this session's id and threshold): neither shows
+		// that i's share lies on the committed polynomial - both are incorrect justifications
+		if firstOther {
+			d7 := w.dealer("main", w.dLong, w.secret)
+			o := (i + 1) % n
+			if o == k && n > 2 {
+				o = (i + 2) % n
+			}
+			pdi, _ := d7.PlaintextDeal(i)
+			if pdo, err := d7.PlaintextDeal(o); err == nil && o != i {
+				*pdi = *pdo
+				if j, err := d7.ProcessResponse(cloneRespR(r2)); err == nil && j != nil {
+					w.justs[fmt.Sprintf("just:%d:bad-another-verifiers-share", i)] = j
+				}
+			}
+			d8 := w.dealer("foreign-polynomial", w.dLong, base.Scalar().Pick(alpha.Stream("c10-foreign-secret")))
+			if pd8, err := d8.PlaintextDeal(i); err == nil {
+				main := w.dealer("main", w.dLong, w.secret)
+				pd8.SessionID = append([]byte{}, main.SessionID()...)
+				j := &vss.Justification{SessionID: append([]byte{}, main.SessionID()...), Index: uint32(i), Deal: pd8}
+				if sig, err := schnorr.Sign(w.suite("foreign-just"), w.dLong, j.Hash(w.suite("h"))); err == nil {
+					j.Signature = sig
+					w.justs[fmt.Sprintf("just:%d:bad-foreign-polynomial", i)] = j
+				}
+			}
+		}
 		// a justification that reveals a share lying on the committed polynomial - at an index beyond the last
 		// verifier: it does not answer i's complaint about share i and must count as an incorrect justification
 		if firstOther {
